@@ -102,6 +102,8 @@ type c05Env struct {
 var c05SharedPristine = []string{"s1", "s2", "s3", "s4", "s5", "s6"}
 
 type c05ReqState struct {
+	flushed bool // the handler flushed its response
+	swapped bool // the handler replaced the response object
 	id    int
 	probe bool // look into the spare value slots before the handler runs
 	prog  []c05HOp
@@ -121,6 +123,8 @@ func c05NewEnv() *c05Env {
 	e := echo.New()
 	e.Logger.SetOutput(nopWriter{})
 	env := &c05Env{e: e, shared: append([]string{}, c05SharedPristine...)}
+	// the application derives the client address from a header of its own (a custom IPExtractor)
+	e.IPExtractor = func(r *http.Request) string { return r.Header.Get("X-Client") }
 	e.Use(func(next echo.HandlerFunc) echo.HandlerFunc {
 		return func(c echo.Context) error {
 			st := c.Request().Context().Value(c05CtxKey{}).(*c05ReqState)
@@ -152,6 +156,9 @@ func c05NewEnv() *c05Env {
 					}
 				}()
 				c.SetParamNames(names...)
+			}
+			if ip := c.RealIP(); ip != c.Request().Header.Get("X-Client") {
+				o.store = append(o.store, "client-address-of-another-request", ip)
 			}
 			q := c.QueryParam("q")
 			if q == c.Request().URL.Query().Get("q") && c.QueryParam("leak") == "" {
@@ -222,6 +229,9 @@ func (env *c05Env) register(r rRoute) {
 				c.Response().WriteHeader(op.A)
 			case "write":
 				c.Response().Write(make([]byte, op.A))
+			case "flush":
+				c.Response().Flush()
+				st.flushed = !st.swapped // (after SetResponse the flush rightly goes to the handler's own response)
 			case "before":
 				owner := st.id
 				c.Response().Before(func() {
@@ -283,6 +293,7 @@ func (env *c05Env) register(r rRoute) {
 			case "setResponse":
 				// the handler swaps the response object for one of its own and dirties it
 				c.SetResponse(echo.NewResponse(httptest.NewRecorder(), env.e))
+				st.swapped = true
 				if op.A > 0 {
 					c.Response().WriteHeader(op.A)
 				}
@@ -373,8 +384,12 @@ func (env *c05Env) serve3(id int, q rReq, prog []c05HOp, probe bool) (ro c05Obs,
 			req.URL.RawQuery = "" // ... and some carry none at all
 		}
 		req = req.WithContext(contextWith(req, st))
+		req.Header.Set("X-Client", "client-"+strconv.Itoa(id))
 		rec := httptest.NewRecorder()
 		env.e.ServeHTTP(rec, req)
+		if st.flushed && !rec.Flushed {
+			st.obs.store = append(st.obs.store, "flush-did-not-reach-this-request's-writer")
+		}
 		if st.obs.kind == 1 && (rec.Code == http.StatusMethodNotAllowed || (rec.Code == http.StatusNoContent && rec.Result().Header.Get("Allow") != "")) {
 			st.obs.kind = 2
 		}
@@ -400,6 +415,8 @@ func c05HOpWire(op c05HOp) string {
 		return wJoin("6", wInt(op.A))
 	case "write":
 		return wJoin("7", wInt(op.A))
+	case "flush":
+		return "6 200" // an uncommitted response is committed with the pending status (200); else nothing
 	case "before":
 		return wJoin("8", wInt(op.A))
 	case "after":
@@ -571,6 +588,33 @@ func c05Run(ci any) Result {
 		}
 		got := make([]string, len(jobs))
 		var wg sync.WaitGroup
+		// two host routers with a route of their own: requests for them run concurrently with everything else and
+		// must be answered by their own host's handler
+		hostBad := make([]string, 2)
+		for h := 0; h < 2; h++ {
+			h := h
+			env.e.Host("host"+strconv.Itoa(h)+".example").GET("/who/:x", func(c echo.Context) error {
+				return c.String(http.StatusOK, "host"+strconv.Itoa(h)+":"+c.Param("x"))
+			})
+		}
+		for h := 0; h < 2; h++ {
+			wg.Add(1)
+			go func(h int) {
+				defer wg.Done()
+				defer func() { recover() }()
+				for it := 0; it < 400; it++ {
+					rq := httptest.NewRequest("GET", "/who/"+strconv.Itoa(it), nil)
+					rq.Host = "host" + strconv.Itoa(h) + ".example"
+					rq = rq.WithContext(contextWith(rq, &c05ReqState{id: 9000 + h}))
+					rec := httptest.NewRecorder()
+					env.e.ServeHTTP(rec, rq)
+					if want := "host" + strconv.Itoa(h) + ":" + strconv.Itoa(it); rec.Body.String() != want && hostBad[h] == "" {
+						hostBad[h] = fmt.Sprintf("concurrent request for host%d.example /who/%d answered %d %q, want %q", h, it, rec.Code, rec.Body.String(), want)
+					}
+				}
+			}(h)
+		}
+
 		for g := 0; g < c.Concurrent; g++ {
 			wg.Add(1)
 			go func(g int) {
@@ -583,6 +627,11 @@ func c05Run(ci any) Result {
 			}(g)
 		}
 		wg.Wait()
+		for _, b := range hostBad {
+			if b != "" {
+				fail(b)
+			}
+		}
 		for i := range jobs {
 			if got[i] != want[i] {
 				fail(fmt.Sprintf("concurrent request %d (%s %q): handler observes %s, on a fresh Echo %s", jobs[i].id, jobs[i].q.Method, jobs[i].q.Path, got[i], want[i]))
@@ -624,7 +673,11 @@ func c05GenProg(r *rand.Rand) []c05HOp {
 		case 6:
 			p = append(p, c05HOp{Kind: "writeHeader", A: []int{200, 201, 404, 500}[r.Intn(4)]})
 		case 7:
-			p = append(p, c05HOp{Kind: "write", A: 1 + r.Intn(20)})
+			if r.Intn(4) == 0 {
+				p = append(p, c05HOp{Kind: "flush"})
+			} else {
+				p = append(p, c05HOp{Kind: "write", A: 1 + r.Intn(20)})
+			}
 		case 8:
 			p = append(p, c05HOp{Kind: "before", A: 1 + r.Intn(5)})
 		case 9:
